@@ -8,7 +8,7 @@
    (C06_from_msg_is_chase); that the reader hands out every answer record, in order, is the
    reader's job (C02/C08/C09) and is tied by the rrset stream. *)
 From RsdnsModel Require Import Base Cursor Names Labels RData Reader RecordSet.
-From RsdnsModel.Proofs Require Import CursorSafe Chase FromMsg.
+From RsdnsModel.Proofs Require Import CursorSafe LabelsSound Chase FromMsg NameRefEq.
 Open Scope N_scope.
 
 (* what is returned is exactly the live matching records at the end of the chain, in message
@@ -58,3 +58,16 @@ Theorem C06_from_msg_is_chase : forall msg ty rs, from_msg msg ty = Ok rs ->
     chase msg (S (length hs)) ty r qname (rs_class rs) hs = Ok (name, rs_ttl rs, rs_data rs) /\
     read_name msg Heap name = Ok (rs_name rs, c').
 Proof. exact from_msg_is_chase. Qed.
+
+(* what "owner equals the current name" means: for a header whose owner and the current chain name
+   both decode, the match used by the chase is == on the decoded names (case-insensitive, C18),
+   whatever compression either name uses, together with type and class equality *)
+Theorem C06_match_is_decoded_equality : forall msg rclass want name c mk t1 t2 c1' c2',
+  cwf msg c -> cwf msg name -> vis msg c = vis msg name ->
+  read_name msg Heap c = Ok (t1, c1') -> read_name msg Heap name = Ok (t2, c2') ->
+  is_match msg rclass want name (Some (c, mk)) = name_eq t1 t2 && ((m_rtype mk =? want) && (m_rclass mk =? rclass)).
+Proof.
+  intros msg rclass want name c mk t1 t2 c1' c2' H1 H2 HV E1 E2. unfold is_match.
+  rewrite (nameref_eq_is_decoded_eq msg Heap c name t1 t2 c1' c2' H1 H2 HV E1 E2).
+  destruct (name_eq t1 t2); reflexivity.
+Qed.
